@@ -4,11 +4,7 @@ from harness import core, pipelib
 
 ID = 'C01'
 MODULE = 'Gpv.Props.C01'
-THEOREMS = [
-    'Gpv.C01.par_safety', 'Gpv.C01.par_final', 'Gpv.C01.par_progress', 'Gpv.C01.par_measure',
-    'Gpv.C01.par_terminates', 'Gpv.C01.serial_final', 'Gpv.C01.serial_eq_parallel', 'Gpv.C01.spec_no_failure',
-    'Gpv.C01.chain',
-]
+THEOREMS = core.theorems('C01')
 RULE = ('scenario = (nworkers 0-4, extracache 0-3, skipNone, maxtasksperchild, function kind module/lambda/closure, kwargs, '
         'per-element outcome table over unique values, None and a zoo of falsy/array/hostile values); free-running and forced '
         'worker schedules (a controller process releases per-element semaphores in a prescribed priority order, bursts included); '
